@@ -7,6 +7,7 @@ marshal/unmarshal is a `Codec` whose round trip is a hypothesis (trusted library
 -/
 import OpenFGAVerif.Model.Assertions
 import OpenFGAVerif.Gen.Assertions
+import OpenFGAVerif.Props.ResolverKeys
 namespace OpenFGAVerif.C31
 open OpenFGAVerif.Model.Assertions
 
@@ -318,5 +319,34 @@ example : memRead [bar] (memRun [bar] [] toyHist) s1 m1 = [4] := by rfl
 example : sqlRead toyCodec (sqlRun toyCodec [] toyHist) s1 m1 = some [4] := by rfl
 example : sqlRead toyCodec (sqlRun toyCodec [] toyHist) s2 m1 = some [] := by rfl
 example : lastWritten [] toyHist s1 [78] = ([] : List UInt8) := by rfl
+
+/-! ## The model a (store, model id) pair is resolved to
+
+WriteAssertions / ReadAssertions resolve the model of the pair they were given through the typesystem resolver, which
+shares datastore reads between overlapping requests by a singleflight key.  The key expressions are regenerated from
+pkg/typesystem/resolver.go on every run (`Gen.ResolverKeys`); `Props/ResolverKeys.lean` proves the resolver exact for every
+schedule from exactly these keys. -/
+
+/-- every singleflight key mentions every argument of the datastore call it shares — the by-id key carries BOTH the store
+and the model id — and so do both model caches -/
+theorem tie_resolver_keys_carry_store_and_model :
+    Gen.ResolverKeys.flightKeys.all OpenFGAVerif.Model.Resolver.keyCoversCall = true ∧
+    OpenFGAVerif.Model.Resolver.argsOf OpenFGAVerif.Model.Resolver.readKeyPieces = ["storeID", "modelID"] ∧
+    Gen.ResolverKeys.cacheKeys.all (fun c => c.2.contains "storeID" && c.2.contains "modelID") = true := by decide
+
+/-- **the pair is resolved to its own model**: for every schedule of overlapping resolutions, a request for (store, model)
+is answered with the datastore's model for exactly that pair — never with another model of the same store that happens to be
+in flight, never with another store's -/
+theorem pair_resolved_exactly (byId : OpenFGAVerif.Model.Resolver.Bytes → OpenFGAVerif.Model.Resolver.Bytes → Option Nat)
+    (latest : OpenFGAVerif.Model.Resolver.Bytes → Option Nat) (evs : List (OpenFGAVerif.Model.Resolver.Ev OpenFGAVerif.Model.Resolver.Req))
+    (hall : ∀ r, OpenFGAVerif.Model.Resolver.Ev.arrive r ∈ evs → ResolverKeys.SlashFree r) :
+    ∀ out ∈ (OpenFGAVerif.Model.Resolver.run OpenFGAVerif.Model.Resolver.groupKey (ResolverKeys.dsOf byId latest)
+        OpenFGAVerif.Model.Resolver.memoById
+        (OpenFGAVerif.Model.Resolver.empty : OpenFGAVerif.Model.Resolver.St OpenFGAVerif.Model.Resolver.Bytes OpenFGAVerif.Model.Resolver.Req Nat) evs).2,
+      out.2 = ResolverKeys.dsOf byId latest out.1 :=
+  ResolverKeys.resolve_exact byId latest evs hall
+
+/-- contrast: a key without the model id answers a request for model m′ with the model m that is in flight -/
+theorem resolver_key_without_model_id_mixes_models := ResolverKeys.drop_model_leaks
 
 end OpenFGAVerif.C31
